@@ -127,10 +127,30 @@ SELECT_PROGS = [
 ]
 
 
+# select through the REPL: what needs more than one program merge (name, lines, expected last line)
+SELECT_REPL_PROGS = [
+    ("a message whose concrete tuple type is first built by a later evaluation is received by an older receiver, in mailbox order",
+     ["p = @#{ !#['int, ('int | 'bin)] }, [7, 7] =warm, Ok", "[1, 0x00] p, [2, 2] p, !p"], "[1, 0x00]"),
+    ("... also when it is the only message (no timeout may win)",
+     ["p = @#{ !#['int, ('int | 'bin)] }", "[1, 0x00] p, ! [p, 300]"], "[1, 0x00]"),
+    ("... also through a filter",
+     ["p = @#{ ! [#['int, ('int | 'bin)] { =[1, _] => Ok }] }, [7, 7] =warm, Ok", "[1, 0x00] p, [1, 2] p, !p"], "[1, 0x00]"),
+]
+
+
 def check_select_progs(quiv):
     import time
 
     fails = []
+    for name, lines, expect in SELECT_REPL_PROGS:
+        r = run_repl(quiv, lines)
+        why = None
+        if r.get("timeout"):
+            why = "timed out (lost wake-up, worker panic or hang)"
+        elif r.get("value") != expect:
+            why = "the last evaluation printed %r, expected %r" % (r.get("value"), expect)
+        if why:
+            fails.append({"program": name, "source": " ;; ".join(lines), "why": why})
     for name, src, expect, min_s in SELECT_PROGS:
         t0 = time.time()
         r = run_prog(quiv, src, timeout=30)
@@ -146,7 +166,7 @@ def check_select_progs(quiv):
             why = "finished after %.3f s, before the timeout's duration of %.1f s" % (dt, min_s)
         if why:
             fails.append({"program": name, "source": src, "why": why})
-    return {"runs": len(SELECT_PROGS), "failures": fails}
+    return {"runs": len(SELECT_PROGS) + len(SELECT_REPL_PROGS), "failures": fails}
 
 
 def run_repl(quiv, lines, timeout=30):
